@@ -269,6 +269,15 @@ func c19Check(c c19Case, st *stats.Run) error {
 			if ferr != nil {
 				return pbt.Failf("C19/harness", "%v", ferr)
 			}
+			if validated || (asked == 1 && a.Answer == "right" && !mismatched) {
+				// the one thing an identity may remember is a validated key, and a call answered with the right
+				// passphrase validates it before anything else: the comparison is with a fresh identity that
+				// has validated its key too (by opening an ordinary file addressed to it)
+				wf, wplain := c19File(c, c19Action{Stanzas: []string{"A"}}, 98)
+				if wg, werr, _ := decryptLib(wf, hx.Delivery{Mode: "whole"}, []int{4096}, false, fresh); werr != nil || !bytes.Equal(wg, wplain) {
+					return pbt.Failf("C19/harness", "warming up the comparison identity failed: %v", werr)
+				}
+			}
 			fgot, fderr, _ := decryptLib(file, hx.Delivery{Mode: "whole"}, []int{4096}, false, fresh)
 			foutcome := "fatal"
 			var fnm *age.NoIdentityMatchError
@@ -280,7 +289,7 @@ func c19Check(c c19Case, st *stats.Run) error {
 			}
 			_ = fgot
 			if foutcome != outcome {
-				return pbt.Failf("C19/history-dependent-outcome", "action %d: a file with stanzas %v gives %s (%v) to this identity after the history %+v, and %s (%v) to a fresh identity of the same key file", n, a.Stanzas, outcome, derr, c.Actions[:n], foutcome, fderr)
+				return pbt.Failf("C19/history-dependent-outcome", "action %d: a file with stanzas %v gives %s (%v) to this identity after the history %+v, and %s (%v) to a fresh identity of the same key file (with its key validated: %v)", n, a.Stanzas, outcome, derr, c.Actions[:n], foutcome, fderr, validated || (asked == 1 && a.Answer == "right" && !mismatched))
 			}
 		}
 		if malformed {
